@@ -23,6 +23,7 @@ import (
 )
 
 type Obligation struct {
+	Static  string // "true"/"false": decided by the frame analysis, no solver query (kind maporder)
 	Name    string
 	Kind    string // ensures requires invariant typeassert index slice nilderef nilmap panic div unsupported purity fieldinv
 	Fn      string
